@@ -24,20 +24,6 @@ namespace ApiFu.C20
 
 /-! ### Operations that fail validation produce no output -/
 
-theorem processDocs_validation_mem (S : Schema) :
-    ∀ (docs : List Doc) (st : St), (∃ d ∈ docs, d.valid = false) → Err.validation ∈ (processDocs S docs st).1 := by
-  intro docs
-  induction docs with
-  | nil => intro st h; obtain ⟨d, hd, _⟩ := h; cases hd
-  | cons d ds ih =>
-    intro st h
-    simp only [processDocs]
-    obtain ⟨d', hd', hv⟩ := h
-    rcases List.mem_cons.mp hd' with rfl | hd'
-    · apply List.mem_append_left
-      simp [processDoc, hv]
-    · exact List.mem_append_right _ (ih _ ⟨d', hd', hv⟩)
-
 /-- **invalid_no_output** — if any `gql(...)` document of the run fails validation (the verdict of
     `graphql.ParseAndValidate` is a parameter of the model), `Generate` returns errors, among them a
     validation error, and — by the type of the result — no output at all, not even for the valid
@@ -104,23 +90,6 @@ theorem typename_required (S : Schema) (ft : List (Name × Name)) (td : TypeDef)
         exact ih htn' ⟨s', hs', hf'⟩ f1 c1 st1
 
 /-! ### Decoding the server's response -/
-
-/-- Declared names pairwise distinct ⇒ looking a declaration's name up finds that declaration. -/
-theorem envOK_of_nodup {env : List Decl} (h : nodupB (env.map Decl.name) = true) : EnvOK env := by
-  have hnd := (nodupB_iff _).mp h
-  intro d hd
-  unfold lookupDecl
-  cases hf : env.find? (fun d' => match d' with
-      | .enum m _ | .sel m _ _ | .typedef m _ _ => m == d.name) with
-  | none =>
-    have := List.find?_eq_none.mp hf d hd
-    cases d <;> simp [Decl.name] at this
-  | some g =>
-    have hg := List.mem_of_find?_eq_some hf
-    have hp := List.find?_some hf
-    have hname : g.name = d.name := by
-      cases g <;> simpa [Decl.name] using hp
-    rw [inj_of_nodup_map Decl.name hnd g hg d hd hname]
 
 /-- **decode_preserves_leaves** — for every schema, every run of the generator over documents inside
     the envelope that produced output `out`, every named operation `name` of the run, and every JSON
